@@ -54,6 +54,12 @@ func gen(seed int64, tier string, idx int) *pipe.Scenario {
 	}
 	kind := changeKinds[g.R.Intn(len(changeKinds))]
 	variant := variants[idx%len(variants)]
+	if idx%16 == 15 {
+		// the pipeline is stopped when the apply looks first and an external Start
+		// lands before it looks again; the apply is not authorised to touch a
+		// running pipeline
+		variant = "startrace"
+	}
 	at := 30 + g.R.Intn(200)
 	if g.R.Intn(6) == 0 {
 		at = -1 // idle
@@ -225,6 +231,25 @@ func hooks(sc *pipe.Scenario) *pipe.Hooks {
 				_ = r.Start(ctx, id)
 			case "unauthorized":
 				finish(do(des, plan.Hash, false, variant))
+			case "startrace":
+				_ = r.StopAndWait(ctx, id)
+				var once sync.Once
+				if r.Points != nil {
+					// the harness as a concurrent client: a Start (outside provisioning, like
+					// the Start RPC) issued and completed right after the apply's first look
+					// at the pipeline status
+					r.Points.On("provisioning.applylive.checked", func() {
+						once.Do(func() { _ = r.Start(ctx, id) })
+					})
+				}
+				a := do(des, plan.Hash, false, variant)
+				if r.Points != nil {
+					r.Points.On("provisioning.applylive.checked", nil)
+				}
+				finish(a)
+				if st := r.Status(id); st != "Running" && st != "Recovering" {
+					_ = r.Start(ctx, id)
+				}
 			case "stale":
 				// another change lands between plan and apply
 				other := desired(cur, "dlq", 2)
@@ -371,6 +396,21 @@ func judge(out *pipe.Outcome, ix *pipe.Index) pipe.Verdict {
 		v.Stats["applies_judged"]++
 		running := statusAt(a.ctl) == "Running"
 		changed := !same(a.Before, a.Desired)
+		// the first event from which the pipeline counts as running for this apply
+		runningFrom := a.ctl
+		if a.Variant == "startrace" {
+			// stopped at the call; an external Start was issued and returned (nil) at the
+			// apply's scheduling point between its two looks at the status: from that
+			// return on the pipeline is a running one, and the apply has yet to look again
+			running = false
+			for i := a.ctl; i <= a.ret; i++ {
+				if evs[i].Kind == rig.KCtlRet && evs[i].Op == "Start" && evs[i].Err == "" {
+					running, runningFrom = true, i
+					v.Stats["starts_landed_between_the_looks_of_an_apply"]++
+					break
+				}
+			}
+		}
 		// --- stale plans / concurrent applies
 		if a.Variant == "stale" && a.Err == "" && changed {
 			add("stale-plan-applied", "", fmt.Sprintf("an apply with a hash computed before another change landed succeeded (mode %q)", a.Mode), a.ctl, a.ret)
@@ -383,7 +423,7 @@ func judge(out *pipe.Outcome, ix *pipe.Index) pipe.Verdict {
 			if a.Err == "" {
 				add("running-pipeline-changed-without-authorisation", "", "ApplyPlanLive(allow=false) succeeded on a running pipeline", a.ctl, a.ret)
 			}
-			for i := a.ctl; i <= a.ret; i++ {
+			for i := runningFrom; i <= a.ret; i++ {
 				e := &evs[i]
 				if e.Kind == rig.KSrcStop || e.Kind == rig.KSrcTeardown || e.Kind == rig.KDstTeardown {
 					add("running-pipeline-touched-without-authorisation", "", fmt.Sprintf("plugin event %s on %s during an unauthorised apply", e.Kind, e.Comp), a.ctl, i)
@@ -513,6 +553,16 @@ func judge(out *pipe.Outcome, ix *pipe.Index) pipe.Verdict {
 				if evs[i].Comp == src0 && evs[i].Kind == rig.KSrcOpen && evs[i].Err == "" {
 					live = true
 					break
+				}
+			}
+			if !live && a.Variant == "startrace" {
+				// the run started inside the apply's window opens its plugins on its own
+				// goroutines, possibly after the (refused) apply has returned
+				for i := a.ret; i < len(evs); i++ {
+					if evs[i].Comp == src0 && evs[i].Kind == rig.KSrcOpen {
+						live = evs[i].Err == ""
+						break
+					}
 				}
 			}
 			if stAfter == "Running" && !live && a.Variant != "restartfail" && a.Variant != "concurrent" && a.Variant != "stale" {
